@@ -37,7 +37,12 @@ Sources == << <<A>>, <<A, LB, Star, RB>>, <<A, Flat>>, <<A, LB, IntT(<<48>>), Co
               \* a slice of a STRING is not a projection: its right-hand side is evaluated once
               <<Id(<<115>>), LB, Colon, IntT(<<50>>), RB, Dot>> \o Fn(<<110,111,116,95,110,117,108,108>>, <<RootT, Dot, A>>),
               Fn(<<110,111,116,95,110,117,108,108>>, <<Id(<<110,111,115,117,99,104>>), Comma, A>>), <<B, Dot, Id(<<107>>)>>, <<A, PipeT>> \o Fn(<<110,111,116,95,110,117,108,108>>, <<CurT>>),
-              Fn(<<109,97,112>>, <<AmpT, CurT, Comma, LB, A, RB>>) \o <<LB, IntT(<<48>>), RB>>, Fn(<<118,97,108,117,101,115>>, <<LBr, Id(<<107>>), Colon, A, RBr>>) \o <<LB, IntT(<<48>>), RB>> >>
+              Fn(<<109,97,112>>, <<AmpT, CurT, Comma, LB, A, RB>>) \o <<LB, IntT(<<48>>), RB>>, Fn(<<118,97,108,117,101,115>>, <<LBr, Id(<<107>>), Colon, A, RBr>>) \o <<LB, IntT(<<48>>), RB>>,
+              \* the caller's array selected at run time next to a freshly built one
+              <<A, OrT>> \o Fn(<<107,101,121,115>>, <<B>>), Fn(<<107,101,121,115>>, <<B>>) \o <<AndT, A>>, <<Json(<<96,91,93,96>>), OrT, A>>, <<A, Filt, Json(<<96,102,97,108,115,101,96>>), RB, OrT, A>>,
+              Fn(<<110,111,116,95,110,117,108,108>>, <<A, Comma>> \o Fn(<<107,101,121,115>>, <<B>>)), <<LB>> \o Fn(<<107,101,121,115>>, <<B>>) \o <<Comma, A, RB, LB, IntT(<<49>>), RB>>,
+              <<LP, A, OrT, A, LB, Star, RB, RP>>, <<A, PipeT, LP, CurT, OrT>> \o Fn(<<107,101,121,115>>, <<RootT, Dot, B>>) \o <<RP>>,
+              <<LetT, VarT(<<36,119>>), AssignT, A, InT, LP, VarT(<<36,119>>), OrT>> \o Fn(<<107,101,121,115>>, <<B>>) \o <<RP>> >>
 MutFns == << <<115,111,114,116>>, <<114,101,118,101,114,115,101>> >>
 Mutators == [i \in 1..(Len(Sources) * 2) |->
                LET src == Sources[((i - 1) \div 2) + 1]  f == MutFns[((i - 1) % 2) + 1] IN Fn(f, src)]
@@ -74,6 +79,7 @@ Texts == <<
 
 AllSel == 1..Len(Texts)
 SpaceSel == (Len(Texts) - Len(SpaceVariants) + 1)..Len(Texts)
+MutSel == (Len(Texts) - Len(SpaceVariants) - Len(Mutators) + 1)..(Len(Texts) - Len(SpaceVariants))
 Init == hs = <<>> /\ docs = SubSeq(PoolApi, 1, NPool) /\ calls = <<>>    \* the first NPool pool documents
 
 Static(t) == StaticAdmissible(Texts[t])
